@@ -19,4 +19,27 @@ def sourceHashes : List (String × String) :=
    ("getVarDependencies", "45e633ad779f638c"),
    ("equalNodes", "5eb72e9c34fe6729")]
 
+/-- which function declarations are init functions, as read by hand:
+    interp/cfg.go, pre-order processing of `case funcDecl:`
+      `if n.child[1].ident == "init" && len(n.child[0].child) == 0 { initNodes = append(initNodes, n) }`
+    (child[1]: the name, child[0]: the receiver field list);
+    interp/src.go importSrc `initNodes = append(initNodes, nodes...)` in the loop over the files;
+    interp/gta.go `case funcDecl:` `switch { case isMethod(n): … case ident == "init": default: sc.sym[ident] = … }` -/
+def initFacts : InitFacts :=
+  { register := [.nameIs "init", .recvEmpty],
+    add := .append,
+    join := .append,
+    gta := [.method, .nameIs "init", .default] }
+
+/-- fingerprints of the statements `initFacts` was read from, of the loops that run the list of
+    init nodes (`for _, n := range initNodes/p.init { interp.run(n, interp.frame) }`: first to last)
+    and of `isMethod` -/
+def initHashes : List (String × String) :=
+  [("cfg: if … { initNodes = append(initNodes, n) }", "49eacede51d20a76"),
+   ("importSrc: loop over rootNodes (cfg, join)", "259e18d428819d03"),
+   ("importSrc: loop over initNodes", "75e841beadd0f070"),
+   ("Execute: loop over p.init", "bdc2b75dc8315f26"),
+   ("gta: switch of case funcDecl (cases; bodies except the method case)", "0771fd44a7e9040c"),
+   ("isMethod", "b176af51407e31d7")]
+
 end YaegiVerif.Expected.C15
